@@ -444,3 +444,60 @@ def compare_bcterm(rep, mc, case, bcterm, reply):
         if not close(float(RHSbc[g]), rhs, sc):
             rep.bad("bcterm-rhs", case, {"ghost_cell": list(c), "impl": float(RHSbc[g]), "model": rhs})
             return
+
+
+# ------------------------------------------------------------------ limiters
+
+def limiter_points(rng, n_dense):
+    pts = [0.0, 1.0, -1.0, 2.0, -2.0, 3.0, -3.0, 0.5, -0.5, 1.5, 0.25, 1 / 3, 4.0, 5.0, -0.25, 1e-300, -1e-300,
+           2.0 ** -40, -2.0 ** -40]
+    pts += [10.0 ** k for k in range(-20, 101, 10)] + [-(10.0 ** k) for k in range(-20, 101, 10)]
+    pts += [rng.uniform(-1e3, 1e3) for _ in range(n_dense)]
+    pts += [rng.uniform(-4, 4) for _ in range(n_dense)]
+    pts += [round(rng.uniform(-8, 8) * 16) / 16 for _ in range(n_dense)]
+    return pts
+
+
+def corr_limiters(rng, n_dense=40, names=None):
+    import io, contextlib
+    rep = Report("limiter")
+    drv = Driver()
+    pend = []
+    for name in (names or LIMITERS) + ["SomethingUnknown"]:
+        for eps in (2e-16, 1e-8):
+            pts = limiter_points(rng, n_dense)
+            with contextlib.redirect_stdout(io.StringIO()):
+                FL = pf.fluxLimiter(name, eps) if eps != 2e-16 else pf.fluxLimiter(name)
+            impl = FL(np.array(pts, dtype=float))
+            i = drv.add_raw(f"limiter {name}|{q(eps)}|{qs(pts)}")
+            pend.append((i, name, eps, pts, impl))
+    replies = drv.run()
+    for i, name, eps, pts, impl in pend:
+        rep.cases += 1
+        rep.count(name)
+        vals = parse_vals(replies[i])
+        impl = [float(x) for x in np.asarray(impl, dtype=float).ravel()]
+        if len(vals) != len(impl):
+            rep.bad("limiter-shape", {"limiter": name, "eps": eps}, {"impl_len": len(impl), "model_len": len(vals)})
+            continue
+        for r, a, b in zip(pts, impl, vals):
+            rep.values += 1
+            rep.sig(name, "neg" if r < 0 else ("zero" if r == 0 else ("lt1" if r < 1 else "ge1")), eps)
+            if not close(a, b, max(1.0, abs(a) if math.isfinite(a) else 1.0)):
+                rep.bad("limiter-value", {"limiter": name, "eps": eps, "r": r}, {"impl": a, "model": b})
+                break
+        if len(rep.samples) < 2:
+            rep.samples.append({"limiter": name, "eps": eps, "r": pts[:6]})
+    # _fsign
+    from pyfvtool.advection import _fsign
+    xs = [0.0, 1.0, -1.0, 1e-16, -1e-16, 5e-17, -5e-17, 1e-17, 2e-16, -3e-16, 1e-300, -1e-300, 7.5, -0.125]
+    drv2 = Driver()
+    drv2.add_raw(f"fsign|{q(EPS1)}|{qs(xs)}")
+    vals = parse_vals(drv2.run()[0])
+    impl = _fsign(np.array(xs))
+    rep.cases += 1
+    for x, a, b in zip(xs, impl, vals):
+        rep.values += 1
+        if not close(float(a), b, 1e-16):
+            rep.bad("fsign", {"x": x}, {"impl": float(a), "model": b})
+    return rep
